@@ -18,6 +18,8 @@ CONSTANTS
   MaxClock = 0
   PreSynced = FALSE
   InboxCap = 1000000
+  EagerNet = FALSE
+  DelayValues = {}
   VaryAll = TRUE
   Granular = TRUE
 INVARIANT SysReport
